@@ -355,7 +355,7 @@ class C14World(World):
     REAL = ["nflows ActNorm, BatchNorm and every container/flow around them (working tree of $VERIF_REPO)",
             "torch nn.Module hooks, state_dict/load_state_dict, torch.save/torch.load"]
     STUB = ["storage medium (in-memory bytes)", "process boundary (fresh instance under another seed)", "callers and data (seeded synthetic batches)"]
-    ASSUME = ["batches have >= 2 rows and per-feature |mean|/std <= 30 (zero mean / unit variance is unsatisfiable for constant or single-sample features)",
+    ASSUME = ["batches have >= 2 rows (4-D ActNorm: also one image with H*W >= 4) and per-feature |mean|/std <= 30 (zero mean / unit variance is unsatisfiable for constant or single-sample features)",
               "either variance estimator (biased/unbiased) is accepted wherever the documentation leaves it open",
               "float32, CPU, one thread; no interrupts are injected for this property (a torn in-place statistics update is behaviour the property does not describe)"]
     EXPECTED_PROBES = ["actnorm_initialising_pass", "batchnorm_training_forward", "eval_forward_before_init",
@@ -498,7 +498,10 @@ class C14World(World):
         training = self.lmode[idx]
         y, ld = out
         legal_rank = (2, 4) if ref.kind == "actnorm" else (2,)
-        if not isinstance(x, torch.Tensor) or x.dim() not in legal_rank or x.shape[0] < 2 and training:
+        # a single image holding >= 4 samples per channel is a batch like any other for the 4-D ActNorm
+        single = (isinstance(x, torch.Tensor) and x.dim() in legal_rank and x.shape[0] < 2
+                  and not (x.dim() == 4 and x.shape[0] == 1 and x.shape[2] * x.shape[3] >= 4))
+        if not isinstance(x, torch.Tensor) or x.dim() not in legal_rank or single and training:
             # outside the property's quantifier (2-D / image batches): a call the layer chose to accept is not judged;
             # whatever it did to the state is adopted
             self.probes["call_outside_quantifier_not_judged"] += 1
@@ -587,7 +590,12 @@ class C14World(World):
         if kind in ("train", "eval") and self.cfg["nest"] != "bare" and sched.chance(0.3):
             op["target"] = sched.randrange(4)
         if kind in ("forward", "inverse"):
-            op.update(x=data.seed30(), rows=data.pick([2, 2, 3, 4, 6, 8]), loc=data.pick([0.0, 0.0, 1.0, -3.0, 10.0]),
+            # a single image is a legitimate batch for the 4-D ActNorm as long as it holds several samples per channel
+            # (B*H*W >= 4 at the layer); single-row 2-D batches stay outside the assumption (their std is undefined)
+            single_ok = (self.cfg["layer"] == "actnorm" and self.cfg["dims"] == 4 and self.cfg["nest"] in ("bare", "comp", "inv")
+                         and self.cfg["hw"][0] * self.cfg["hw"][1] >= 4)
+            op.update(x=data.seed30(), rows=data.pick([1, 1, 2, 3, 4, 6, 8] if single_ok else [2, 2, 3, 4, 6, 8]),
+                      loc=data.pick([0.0, 0.0, 1.0, -3.0, 10.0]),
                       scale=data.pick([1.0, 1.0, 0.1, 5.0]))
         elif kind == "restart":
             op.update(seed=data.seed30(), source=sched.weighted(["now", "old"], [3, 1]))
